@@ -80,7 +80,7 @@ PROPS = {
     ),
     'C17': dict(
         title='Every error points at the token that caused it',
-        verus_units=['state', 'compile', 'lex'],
+        verus_units=['state', 'compile', 'lex', 'build'],
         kani_groups=[],
         design_ref='DESIGN.md section 5 / C17',
         technique='Verus: fetch_and_run leaves ctx.ip on the failing instruction (so the debug-map lookup names its token); debug-map/code invariants on the emitters; '
@@ -96,7 +96,7 @@ PROPS = {
     ),
     'C01': dict(
         title='Structured control flow compiles to bytecode that means what the source says',
-        verus_units=['compile', 'state'],
+        verus_units=['compile', 'state', 'collections', 'build'],
         kani_groups=['opcodes.rs'],
         design_ref='DESIGN.md section 5 / C01',
         technique='Kani full-domain proof of the jump codec; Verus backpatch contracts on every immediate control word over a pending-flow invariant '
@@ -216,7 +216,7 @@ PROPS = {
     ),
     'C08': dict(
         title='No source text, input or API call sequence can crash the interpreter',
-        verus_units=['bitstr', 'state', 'compile', 'cell', 'arith', 'collections', 'cursor', 'lex'],
+        verus_units=['bitstr', 'state', 'compile', 'cell', 'arith', 'collections', 'cursor', 'lex', 'build'],
         kani_groups=['state_idx.rs', 'codec.rs'],
         design_ref='DESIGN.md section 5 / C08',
         technique='panic freedom of exactly the functions under contract: Verus checks every arithmetic operation for overflow, every index, unwrap, division, unreachable!/panic! site; Kani runs with overflow/bounds checks',
